@@ -16,7 +16,7 @@ from fractions import Fraction
 from ..loader import AnalysisError, Tree, unparse, walk_function
 from ..poly import RF, D, Poly, equal, sqrt, sym
 from ..report import Check
-from ..terms import ExtractionError, Opaque, RaisedError, TermEval, Tup
+from ..terms import DictV, ExtractionError, NoReturn, Opaque, RaisedError, TermEval, Tup, vkey
 
 PID = "C19"
 ANG = "ampform.kinematics.angles"
@@ -179,39 +179,90 @@ def _subst_atom_deep(v: RF, atom: str, repl: RF) -> RF:
 SHAPES = [(i, j, k) for i in (0, 1, 2, 3) for j in (1, 2, 3) for k in (1, 2, 3)] + [(i, j, 0) for i in (1, 2, 3) for j in (1, 2, 3)]
 
 
-def literal_triples(fn) -> tuple[list, list[set], list[ast.If]]:
-    """Literal index triples of the `== (a,b,c)` and `in {...}` tests of the if-chain."""
-    direct, groups, nodes = [], [], []
-    for st in fn.node.body:
-        if isinstance(st, ast.If) and isinstance(st.test, ast.Compare) and isinstance(st.test.left, ast.Tuple) and len(st.test.left.elts) == 3:
-            comp = st.test.comparators[0]
-            if isinstance(st.test.ops[0], ast.Eq) and isinstance(comp, ast.Tuple):
-                direct.append(tuple(e.value for e in comp.elts))
-                nodes.append(st)
-            elif isinstance(st.test.ops[0], ast.In) and isinstance(comp, ast.Set):
-                groups.append({tuple(e.value for e in t.elts) for t in comp.elts})
-                nodes.append(st)
-    return direct, groups, nodes
+def table_rows(A: Angles, fn, domain) -> list[tuple[ast.If, set]]:
+    """The rows of a case table and, per row, the index tuples of ``domain`` that satisfy its test.
+
+    A row is an ``if`` of the top-level chain of the function (``elif`` links included).  Its test is
+    decided for every index tuple by constant propagation, with the straight-line statements in front
+    of it evaluated first - so a test may be spelt ``(i, j, k) == (1, 1, 3)``, ``case == (1, 1, 3)`` for a
+    local ``case = (i, j, k)``, ``case in {...}``, ``{i, j, k} == {1, 2, 3}`` ...  Every test is judged in
+    isolation (as if no earlier row had returned): that is what makes an overlap visible.  A test that is
+    not decidable over the indices is an analysis error."""
+    te = A.te
+    rows: dict[int, tuple[ast.If, set]] = {}
+    order: list[int] = []
+    for idx in domain:
+        env = te.bind_params(fn, [RF.const(i) for i in idx], {})
+        for st in fn.node.body:
+            if isinstance(st, ast.If):
+                link = st
+                while True:
+                    try:
+                        fires = te.const(link.test, env, fn)
+                    except TermEval.NotConst:
+                        raise AnalysisError(f"{fn.qual}: the test `{unparse(link.test)[:60]}` of the case table is not decidable over constant indices") from None
+                    if id(link) not in rows:
+                        rows[id(link)] = (link, set())
+                        order.append(id(link))
+                    if fires:
+                        rows[id(link)][1].add(idx)
+                    if len(link.orelse) == 1 and isinstance(link.orelse[0], ast.If):
+                        link = link.orelse[0]
+                    else:
+                        break
+                continue
+            if isinstance(st, (ast.Return, ast.Raise)):
+                break
+            try:
+                te.eval_body([st], env, fn)
+            except NoReturn:
+                pass
+    return [rows[i] for i in order]
 
 
 def check_tables(ctx: Check, tree: Tree, A: Angles) -> None:
     fn = A.zeta
-    direct, groups, _ = literal_triples(fn)
-    allt = list(direct) + [t for g in groups for t in g]
     universe = set(itertools.product((1, 2, 3), repeat=3))
     diagonal = {t for t in universe if t[1] == t[2]}
+    everything = set(itertools.product((0, 1, 2, 3, 4), repeat=3))
+    rows = table_rows(A, fn, sorted(everything))
+    table = [(node, fires & universe, fires - universe) for node, fires in rows if fires & universe]
     problems = []
-    if len(allt) != len(set(allt)):
-        dup = sorted({t for t in allt if allt.count(t) > 1})
-        problems.append(f"triples listed twice: {dup} (the first row wins silently)")
-    covered = set(allt) | diagonal
-    if covered != universe:
-        problems.append(f"not covered: {sorted(universe - covered)}; outside the domain: {sorted(set(allt) - universe)}")
-    if set(allt) & diagonal:
-        problems.append(f"rows shadowed by the `aligned == reference` rule: {sorted(set(allt) & diagonal)}")
-    ctx.stats["zeta_literal_triples"] = len(allt)
-    ctx.verdict(not problems and len(direct) == 6 and len(allt) == 18, "R-TABLE", f"{fn.qual}::partition", tree.loc(fn.node),
-                f"formulate_zeta_angle: {len(direct)} direct rows + {[len(g) for g in groups]} grouped triples + 9 diagonal triples partition {{1,2,3}}^3", problems or None)
+    hits: dict[tuple, int] = {}
+    for _, inside, _ in table:
+        for t in inside:
+            hits[t] = hits.get(t, 0) + 1
+    twice = sorted(t for t, n_ in hits.items() if n_ > 1)
+    if twice:
+        problems.append(f"triples accepted by several rows: {twice} (the first row wins silently; {sorted(set(twice) & diagonal)} of them by the `aligned == reference` rule)")
+    uncovered = sorted(universe - set(hits))
+    if uncovered:
+        handled = []
+        for t in uncovered:
+            try:
+                A.call(fn, *t)
+                handled.append(t)
+            except RaisedError:
+                pass
+        if handled:
+            raise AnalysisError(f"{fn.qual}: {handled[:3]} are accepted by no `if` of the top-level chain but the function returns an expression for them: the case analysis is not (only) an if-chain over the indices, the partition cannot be read off")
+        problems.append(f"not covered: {uncovered}")
+    # ids outside {1,2,3}: a row of the table (not the `aligned == reference` rule, not the state-0 / reference-0
+    # delegations in front of it) must not be the first one to accept a foreign triple
+    first: dict[tuple, int] = {}
+    for n_, (_, fires) in enumerate(rows):
+        for t in fires:
+            first.setdefault(t, n_)
+    position = {id(node): n_ for n_, (node, _) in enumerate(rows)}
+    foreign = sorted(t for node, inside, outside in table if not inside <= diagonal for t in outside if first[t] == position[id(node)])
+    if foreign:
+        problems.append(f"outside the domain: {foreign}")
+    listed = [inside for _, inside, _ in table if not inside <= diagonal]
+    direct = [g for g in listed if len(g) == 1]
+    groups = [g for g in listed if len(g) > 1]
+    ctx.stats["zeta_literal_triples"] = sum(len(g) for g in listed)
+    ctx.verdict(not problems, "R-TABLE", f"{fn.qual}::partition", tree.loc(fn.node),
+                f"formulate_zeta_angle: {len(direct)} single-triple rows + {[len(g) for g in groups]} grouped triples + {len(diagonal)} diagonal triples partition {{1,2,3}}^3 (row tests decided for all 125 index triples over 0..4)", problems or None)
     # every call shape evaluates (no fall-through to NotImplementedError), incl. state 0 and reference 0
     failures = []
     n = 0
@@ -377,13 +428,49 @@ def check_covariance(ctx: Check, tree: Tree, A: Angles, exprs: dict) -> None:
 
 
 def check_consumers(ctx: Check, tree: Tree) -> None:
+    """The generator is evaluated symbolically (helper methods inlined, arguments bound by name): which
+    arguments reach formulate_zeta_angle, which angle reaches Wigner.d, what is registered."""
     gen = tree.cls("ampform.helicity.align.dpd::_DPDAlignmentWignerGenerator")
     call = gen.methods.get("__call__")
-    from ..canon import canon
+    zeta_fn = tree.func(f"{ANG}::formulate_zeta_angle")
+    te = TermEval(tree, inline_depth=6)
+    requests: list[dict] = []
 
-    t = canon(call.node, call.node).replace(" ", "")
-    ok = "_0,_1=formulate_zeta_angle(rotated_state,aligned_subsystem,self.reference_subsystem)" in t and "Wigner.d(j,m,m_prime,_0)" in t and "self.angle_definitions[_0]=_1" in t
-    ctx.verdict(ok, "R-TERM", f"{gen.qual}.__call__::wiring", tree.loc(call.node), "the DPD Wigner-d of state i in subsystem j uses zeta^i_{j(reference)} and registers its definition under the same symbol")
+    def formulate(ev, args, kwargs):
+        requests.append(ev.bind_params(zeta_fn, args, kwargs))
+        return Tup([RF.atom(f"<zeta symbol #{len(requests)}>"), RF.atom(f"<zeta definition #{len(requests)}>")])
+
+    te.overrides[zeta_fn.qual] = formulate
+    definitions = DictV([])
+    spin = RF.const(7)  # a constant non-zero spin: the `j == 0 -> 1` shortcut is decided, not forked
+    given = {"j": spin, "m": RF.atom("<m>"), "m_prime": RF.atom("<m_prime>"), "rotated_state": RF.atom("<rotated_state>"), "aligned_subsystem": RF.atom("<aligned_subsystem>")}
+    missing = [p for p in given if p not in call.params]
+    if missing:
+        raise AnalysisError(f"{call.qual}: parameters {missing} vanished")
+    env = {"self": {"reference_subsystem": RF.atom("<self.reference_subsystem>"), "angle_definitions": definitions}, **given}
+    result = te.eval_body(call.node.body, env, call)
+    problems = []
+    want = {"rotated_state": given["rotated_state"], "aligned_subsystem": given["aligned_subsystem"], "reference_subsystem": env["self"]["reference_subsystem"]}
+    if len(requests) != 1:
+        problems.append(f"formulate_zeta_angle is called {len(requests)} times")
+    else:
+        got = requests[0]
+        for name, value in want.items():
+            if name not in got or vkey(got[name]) != vkey(value):
+                problems.append(f"formulate_zeta_angle receives {name} = {got.get(name)!r:.60}, expected {value!r}")
+    symbol, definition = RF.atom("<zeta symbol #1>"), RF.atom("<zeta definition #1>")
+    atom = te.single_atom(result) if isinstance(result, RF) else None
+    info = te.apps.get(atom) if atom is not None and te.is_app(atom) else None
+    if info is None or info.cls != "d":
+        problems.append(f"the result is not one Wigner.d(...): {result!r:.80}")
+    else:
+        for name, value in {"j": spin, "m": given["m"], "mp": given["m_prime"], "beta": symbol}.items():
+            if name not in info.kwargs or vkey(info.kwargs[name]) != vkey(value):
+                problems.append(f"Wigner.d receives {name} = {info.kwargs.get(name)!r:.60}, expected {value!r}")
+    registered = [(vkey(k), vkey(v)) for k, v in definitions.items]
+    if registered != [(vkey(symbol), vkey(definition))]:
+        problems.append(f"angle_definitions receives {[(repr(k)[:40], repr(v)[:40]) for k, v in definitions.items]}, expected the one entry symbol -> definition returned by formulate_zeta_angle")
+    ctx.verdict(not problems, "R-TERM", f"{gen.qual}.__call__::wiring", tree.loc(call.node), "the DPD Wigner-d of state i in subsystem j uses zeta^i_{j(reference)} and registers its definition under the same symbol", problems or None)
 
 
 def run(ctx: Check, tree: Tree) -> None:
